@@ -20,6 +20,7 @@ From Tx Require Model.OpsC07.
 From Tx Require Model.OpsC19.
 From Tx Require Model.OpsC20.
 From Tx Require Model.OpsC05.
+From Tx Require Model.OpsC11.
 Local Open Scope Z_scope.
 
 Definition run_op (s : sexp) : sexp :=
@@ -45,6 +46,7 @@ Definition run_op (s : sexp) : sexp :=
       | 19 => OpsC19.op args
       | 20 => OpsC20.op args
       | 5 => OpsC05.op args
+      | 11 => OpsC11.op args
       | _ => bad
       end
   | _ => bad
